@@ -116,6 +116,7 @@ func (c *clipperBase) recursiveCheckOwners(outrec *OutRec, polypath *PolyPathBas
 		}
 		if outrec.owner.pts != nil && c.checkBounds(outrec.owner) &&
 			path1InsidePath2(outrec.pts, outrec.owner.pts) {
+			vEvent("treeOwnerAccepted", nil, outrec.path...)
 			break
 		}
 		outrec.owner = outrec.owner.owner
